@@ -192,6 +192,12 @@ func C10(seed uint64, run int) *spec.Spec {
 			j := r.Intn(i)
 			lk.Repeat = &j
 			lk.Why = "repeat"
+			if r.Chance(0.5) {
+				// the very same question again: same convention, base year and entry point, no clock change
+				prev := s.Lookups[j]
+				lk.Sect, lk.Base, lk.API, lk.Clock, lk.Fault = prev.Sect, prev.Base, prev.API, nil, ""
+				lk.Why = "exact_repeat"
+			}
 		case k == 0: // next to a Jie instant
 			off := 0
 			switch r.Weighted([]int{40, 30, 20, 10}) {
